@@ -10,6 +10,7 @@ package main
 // 86400*719162).  Duration overflow/saturation in Sub is not modelled.
 
 import (
+	"go/types"
 	"go/token"
 
 	"golang.org/x/tools/go/ssa"
@@ -212,5 +213,18 @@ func init() {
 		intrinsics[n] = func(e *Engine, fr *frame, fn *ssa.Function, args []Value, g *Term, pos token.Pos) Value {
 			return args[0]
 		}
+	}
+}
+
+// time.After(d): a channel on which the timer's tick is already available.
+// (A blocking receive therefore completes, as it eventually does in reality;
+// in a select with other ready cases the choice stays nondeterministic.)
+func init() {
+	intrinsics["time.After"] = func(e *Engine, fr *frame, fn *ssa.Function, args []Value, g *Term, pos token.Pos) Value {
+		ct := fn.Signature.Results().At(0).Type()
+		o := newObject("chan:time.After", ct, nil)
+		elemT := ct.Underlying().(*types.Chan).Elem()
+		o.ch = &ChanData{closed: tFalse, count: c64(1), cap: 1, elemT: elemT, elems: []Value{e.timeNow(g)}}
+		return &ChanV{T: []PtrTarget{{G: tTrue, Obj: o}}}
 	}
 }
